@@ -2,6 +2,7 @@ package harness
 
 import (
 	"fmt"
+	"os"
 	"sort"
 	"time"
 
@@ -105,6 +106,9 @@ func runModelHistory(prop string, w *Workload, res *Result, hook func(mr *modelR
 		mr.violateOrHarness(s)
 	}
 	for _, p := range s.Panics {
+		if os.Getenv("VERIF_DUMP") != "" {
+			fmt.Println(p.Stack)
+		}
 		mr.violate("task-panic", "task-panic|"+normMsg(fmt.Sprint(p.Panic))+" ["+stackFrames(p.Stack, 1)+"]",
 			fmt.Sprintf("task %s panicked: %v [%s]", p.Name, firstLine(fmt.Sprint(p.Panic)), stackFrames(p.Stack, 3)))
 	}
